@@ -111,6 +111,24 @@ def run(case, ctx, rng):
             ctx.eq('length', len(C), len(M), cipher='rc4', key=key)
             ctx.eq('dec(enc)==M', call(lambda: RC4(key).dec(C)), M, cipher='rc4', key=key)
             ctx.eq('rc4:keystream(n)', call(lambda: bytes(RC4(key).keystream(len(M)).ival)), rs.rc4(key, len(M)), key=key)
+            # the public key-scheduling method re-run on a used object restarts the specified stream; a new key through the
+            # public K re-keys it.  (Skipped when a refactoring has made ksa private: only what exists is driven.)
+            o = RC4(key); call(o.enc, M + b'x')
+            if hasattr(o, 'ksa') and hasattr(o, 'K'):
+                call(o.ksa)
+                ctx.eq('rc4:enc==M^KS', call(o.enc, M), want, key=key, M=M, after='ksa() re-run on a used object')
+                from crysp.poly import Poly
+                key2 = rng.randbytes(1 + case['kl'] % 16)
+                o.K = Poly(key2); call(o.ksa)
+                ctx.eq('rc4:enc==M^KS', call(o.enc, M), bytes(a ^ b for a, b in zip(M, rs.rc4(key2, len(M)))), key=key2, M=M, after='re-keyed through K and ksa()')
+            kb = bytearray(key); o2 = call(RC4, kb); Mb = bytearray(M)
+            if not is_exc(o2) and not is_exc(call(lambda: RC4(key).enc(Mb))):       # only where the library accepts these buffer types at all
+                first = call(lambda: bytes(o2.enc(Mb)))
+                ctx.eq('rc4:enc==M^KS', first, want, key=key, M=M, buffers='bytearray key and message')
+                ctx.eq('rc4:enc==M^KS', (bytes(kb), bytes(Mb)), (key, M), buffers='caller buffers left unchanged')
+                for i in range(len(kb)): kb[i] = 0
+                ks = rs.rc4(key, 2 * len(M))
+                ctx.eq('rc4:enc==M^KS', call(lambda: bytes(o2.enc(M))), bytes(a ^ b for a, b in zip(M, ks[len(M):])), key=key, M=M, buffers='key buffer wiped by the caller after construction')
     elif k == 'rc4-split':
         from crysp.rc4 import RC4
         key = rng.randbytes(case['kl']); M = rng.randbytes(case['n'])
